@@ -13,7 +13,7 @@ RULE = (
     "per attempt the server behaviour = status 200 / 201 / 205 / 404 / 500 (with body) / 204 / 304 x framing Content-Length / chunked / close-delimited x "
     "keep-alive / close x network segmentation x part of the response arriving only after the next request was written x {nothing, stray bytes or a complete second response after the body, a body "
     "after a body-less HEAD/204/304 response, an interim 100 Continue, early EOF inside the body}; per response the caller "
-    "behaviour = read all / read k then release / release unread / drain / close / read k then close / stream / ignore / "
+    "behaviour = read all / read k then release / release unread / drain / close / read k then close / stream / stream or iterate and stop after the first piece (generator closed) then release / ignore / "
     "read k then ignore / release (or read k and release) while keeping the response object referenced / hold (read to the end only just before the last request, so that several connections are in flight). Every body the server sends is TAGGED with the target and serial number of the request it answers, "
     "stray bytes carry a poison tag, so each delivered byte has a decidable owner. Non-trivial = an earlier response was left "
     "unread / partially read / had stray bytes or a surplus body AND a later request used the pool."
@@ -25,7 +25,7 @@ ASSUMPTIONS = [
 ]
 EXHAUSTIVE = {"quick": False, "thorough": False}
 
-BEHAVIOURS = ["read", "readk-release", "release", "drain", "close", "readk-close", "stream", "ignore", "readk-ignore", "hold", "release-keep", "readk-release-keep"]
+BEHAVIOURS = ["read", "readk-release", "release", "drain", "close", "readk-close", "stream", "ignore", "readk-ignore", "hold", "release-keep", "readk-release-keep", "stream-break", "iter-break"]
 EXTRAS = [None, "stray", "second", "force_body", "pre100", "short"]
 
 
@@ -163,6 +163,17 @@ def run_case(case) -> list[Failure]:
                 elif b == "stream":
                     for piece in r.stream(11):
                         rec["bytes"] += piece
+                    r.release_conn()
+                elif b in ("stream-break", "iter-break"):
+                    # the caller stops iterating part-way (`for piece in r.stream(7): break`): the generator is closed
+                    # (GeneratorExit inside the read), then the response is released
+                    gen = r.stream(7) if b == "stream-break" else iter(r)
+                    for piece in gen:
+                        rec["bytes"] += piece
+                        break
+                    if hasattr(gen, "close"):
+                        gen.close()
+                    del gen
                     r.release_conn()
                 elif b == "ignore":
                     keepalive.append(r)
